@@ -349,6 +349,8 @@ pub struct E1Stats {
 }
 
 pub struct E1Run<'a> {
+    /// abstract -> concrete resource map used for every build of this run
+    pub resmap: Vec<u8>,
     /// C19: number of resource relabellings to try per state (0 = off)
     pub c19_maps: usize,
     pub profile: &'a Profile,
@@ -436,7 +438,7 @@ impl<'a> Worker<'a> {
         }
         let ops: &[Op] = prefix;
         let info = PlanInfo::of(ops);
-        let idm = Ctx::identity_map();
+        let idm = self.run.resmap.clone();
         let obs = observe(ops, &idm, self.run.need);
         self.stats.states += 1;
         if ops.len() > self.stats.max_depth {
@@ -540,7 +542,7 @@ pub fn run_profile(run: &E1Run) -> E1Result {
         let _ = saved_depth;
         let ops: Vec<Op> = prefix.clone();
         let info = PlanInfo::of(&ops);
-        let obs = observe(&ops, &Ctx::identity_map(), w.run.need);
+        let obs = observe(&ops, &w.run.resmap, w.run.need);
         w.stats.states += 1;
         for vi in check_state(&w.run.props, &ops, &info, &obs, true) {
             w.col.add(Finding {
